@@ -194,6 +194,89 @@ def run_ftp_sessions(recorder, specs):
     return results
 
 
+STAND_IN_YOUTUBE_DL = '''#!{python}
+# stand-in for youtube-dl: writes the *.info.json files that --write-info-json leaves for a page with N videos
+import json, sys
+args = sys.argv[1:]
+template = args[args.index('--output') + 1]
+n = {n}
+for i in range(n):
+    name = template.replace('%(id)s', 'vid%03d' % i).replace('%(format_id)s', '22').replace('%(ext)s', 'info.json')
+    with open(name, 'w') as f:
+        json.dump({{'id': 'vid%03d' % i, 'title': 'video %d' % i, 'formats': [{{'format_id': '22'}}] * (i + 1)}}, f)
+print('[stand-in] wrote', n, 'info files')
+'''
+
+
+def gen_coprocessor_case(rng):
+    '''Records that do not come from an HTTP or FTP session: the youtube-dl coprocessor archives the metadata files the
+    external program leaves behind (one per video; several for a playlist page).'''
+    cfg = gen_config(rng)
+    cfg.update({'appending': False, 'dedup': False, 'rerun': False, 'move': False})
+    return {'coprocessor': True, 'config': cfg, 'videos': rng.choice([1, 2, 3, 5]), 'seg_seed': rng.randrange(1 << 30), 'seg_mode': 'whole', 'seq': []}
+
+
+def run_coprocessor_case(case, keep_dir=None):
+    import asyncio
+    import sys
+    from wpull.warc.recorder import WARCRecorder, WARCRecorderParams
+    from wpull.processor.coprocessor.youtubedl import Session
+    from wpull.url import URLInfo
+    cfg = case['config']
+    tmp = keep_dir or tempfile.mkdtemp(prefix='vwarc')
+    prefix = os.path.join(tmp, 'out')
+    root_logger = logging.getLogger()
+    saved_level = root_logger.level
+    saved_handlers = list(root_logger.handlers)
+    obs = {'config': cfg, 'exchanges': [], 'files': {}, 'error': None, 'seg_mode': 'whole'}
+    script = os.path.join(tmp, 'stand-in-youtube-dl')
+    with open(script, 'w') as f:
+        f.write(STAND_IN_YOUTUBE_DL.format(python=sys.executable, n=case['videos']))
+    os.chmod(script, 0o755)
+
+    class _Record(object):
+        url = 'http://h.test/watch?v=list'
+        url_info = URLInfo.parse(url)
+
+    class _Item(object):
+        url_record = _Record()
+
+    class _Writer(object):
+        def extra_resource_path(self, suffix):
+            return os.path.join(tmp, 'page.html' + suffix)
+
+    async def main():
+        recorder = WARCRecorder(prefix, params=WARCRecorderParams(
+            compress=cfg['compress'], extra_fields=cfg['extra_fields'], temp_dir=tmp, log=cfg['log'], digests=cfg['digests'],
+            cdx=cfg['cdx'], max_size=cfg['max_size']))
+        session = Session(('127.0.0.1', 8888), script, tmp, _Item(), _Writer(), None, recorder, False, True)
+        try:
+            await session.run()
+        except Exception as e:      # noqa
+            obs['error'] = '{}: {}'.format(type(e).__name__, str(e)[:200])
+        finally:
+            session.close()
+        try:
+            recorder.close()
+        except Exception as e:       # noqa
+            obs['close_error'] = '{}: {}'.format(type(e).__name__, str(e)[:200])
+    try:
+        from harness import netsim
+        netsim.run(main(), timeout=60)
+        for path in sorted(glob.glob(prefix + '*')):
+            with open(path, 'rb') as f:
+                obs['files'][os.path.basename(path)] = f.read()
+        obs['leftover_tmp'] = []
+    finally:
+        for h in list(root_logger.handlers):
+            if h not in saved_handlers:
+                root_logger.removeHandler(h)
+        root_logger.setLevel(saved_level)
+        if not keep_dir:
+            shutil.rmtree(tmp, ignore_errors=True)
+    return obs
+
+
 REDIRECT_TARGETS = [
     # (Location as the server writes it, the URL that is requested after normalisation)
     ('/three?x=1#section-3', 'http://h.test/three?x=1'),
@@ -432,6 +515,8 @@ def run_case(case, keep_dir=None):
         return run_overlap_case(case, keep_dir)
     if case.get('redirects'):
         return run_redirect_case(case, keep_dir)
+    if case.get('coprocessor'):
+        return run_coprocessor_case(case, keep_dir)
     from wpull.warc.recorder import WARCRecorder, WARCRecorderParams
     cfg = case['config']
     rng = random.Random(case['seg_seed'])
